@@ -254,6 +254,9 @@ def _unfiltered_source(desc):
     return desc
 
 
+_NEG_OPS = {ast.Eq: '!=', ast.NotEq: '==', ast.Is: 'is not', ast.IsNot: 'is', ast.In: 'not in', ast.NotIn: 'in'}
+
+
 def row_guards(d, b):
     """descriptors of the tests that dominate the creation of a row: enclosing ifs, preceding early exits in the
     enclosing loops, comprehension filters - plus the iterables the row ranges over."""
@@ -265,7 +268,25 @@ def row_guards(d, b):
     anchor = node
     if b.row.elts:
         anchor = getattr(b.row.elts[0], '_parent', node) or node
+    from ..effects import neg_ast
     for test, pol in _dominating_facts(anchor, b.func.node):
+        if not pol and isinstance(test, ast.Compare) and len(test.ops) == 1 and type(test.ops[0]) in _NEG_OPS:
+            # the falsity of `a != b` is `a == b`: described on the original operands
+            out.append(f'{d.describe(test.left, test, 1, b.row)} {_NEG_OPS[type(test.ops[0])]} {d.describe(test.comparators[0], test, 1, b.row)}')
+            continue
+        if not pol:
+            nt = neg_ast(test)
+            if not (isinstance(nt, ast.UnaryOp) and isinstance(nt.op, ast.Not)):
+                # negation normal form: the falsity of `not a or b == c` is `a and b != c`; the rebuilt test stands where the
+                # original stood (parent links and position are what the descriptor analysis resolves names with)
+                for par in ast.walk(nt):
+                    for ch in ast.iter_child_nodes(par):
+                        ch._parent = par
+                    if not hasattr(par, 'lineno') and hasattr(test, 'lineno'):
+                        par.lineno, par.col_offset = test.lineno, test.col_offset
+                        par.end_lineno, par.end_col_offset = getattr(test, 'end_lineno', test.lineno), getattr(test, 'end_col_offset', 0)
+                nt._parent = getattr(test, '_parent', None)
+                test, pol = nt, True
         c = d._cond(test, test, 0, b.row)
         c = c if pol else f'not ({c})'
         while c.startswith('not (not (') and c.endswith('))'):
